@@ -285,6 +285,45 @@ Proof. intros p bs bs' S b. rewrite !of_proto_In. specialize (S b). tauto. Qed.
 Lemma compatible_of_proto : forall p bs, compatible bs -> compatible (of_proto p bs).
 Proof. intros p bs C b b' I I'. apply of_proto_In in I as [I _]. apply of_proto_In in I' as [I' _]. now apply C. Qed.
 
+Lemma services_value_proto : forall bs k v, In (k, v) (fold_left add_service bs []) -> bproto v = k.
+Proof.
+  intros bs k v I. apply (dget_In proto_eqb proto_eqb_eq _ _ _ (services_NoDup bs)) in I.
+  rewrite services_get in I. destruct (of_proto k bs) as [|b0 t0] eqn:F; [discriminate|]. injection I as <-. simpl.
+  assert (I0 : In b0 (of_proto k bs)) by (rewrite F; simpl; auto). now apply of_proto_In in I0 as [_ I0].
+Qed.
+
+Lemma find_values_dget : forall (m : list (proto * bsvc)) p,
+  (forall k v, In (k, v) m -> bproto v = k) ->
+  find (fun b => proto_eqb p (bproto b)) (map snd m) = dget proto_eqb p m.
+Proof.
+  induction m as [|[k v] t IH]; intros p H; simpl; [reflexivity|].
+  rewrite (H k v (or_introl eq_refl)). destruct (proto_eqb p k); [reflexivity|].
+  apply IH. intros k' v' I. apply H. now right.
+Qed.
+
+(* config.get_service(p) on the merged services *)
+Lemma svc_of_services : forall bs p,
+  svc_of p (map snd (fold_left add_service bs [])) = merged (of_proto p bs).
+Proof.
+  intros bs p. unfold svc_of. rewrite find_values_dget by apply services_value_proto. apply services_get.
+Qed.
+
+Lemma merged_attr_invariant {A} (f : bsvc -> A) : forall bs bs' p,
+  (forall b b', bsvc_equiv b b' -> f b = f b') -> same_set bs bs' -> compatible bs ->
+  match merged (of_proto p bs) with Some b => Some (f b) | None => None end =
+  match merged (of_proto p bs') with Some b => Some (f b) | None => None end.
+Proof.
+  intros bs bs' p R S C.
+  assert (P : forall l, forall b, In b (of_proto p l) -> forall b', In b' (of_proto p l) -> bproto b = bproto b').
+  { intros l b I b' I'. apply of_proto_In in I as [_ ->]. apply of_proto_In in I' as [_ ->]. reflexivity. }
+  destruct (merged (of_proto p bs)) as [e|] eqn:M.
+  - destruct (merged_equiv _ (of_proto p bs') e (of_proto_same_set p _ _ S) (compatible_of_proto p _ C) (P bs) M)
+      as (e' & -> & Q). f_equal. now apply R.
+  - destruct (merged (of_proto p bs')) as [e'|] eqn:M'; [|reflexivity].
+    destruct (merged_equiv _ (of_proto p bs) e' (of_proto_same_set p _ _ (same_set_sym _ _ S))
+                (compatible_of_proto p _ (compatible_same_set _ _ S C)) (P bs') M') as (e & M2 & _). congruence.
+Qed.
+
 Theorem services_equiv : forall bs bs', same_set bs bs' -> compatible bs ->
   svcs_equiv (map snd (fold_left add_service bs [])) (map snd (fold_left add_service bs' [])).
 Proof.
@@ -437,7 +476,7 @@ Qed.
 Definition addr_consistent (lk : lookups) (l : list item) : Prop :=
   compatible (map h_b (hitems l)) /\ hints_ok lk l /\
   (forall x y, In x (hitems l) -> In y (hitems l) ->
-               ideep (h_it x) = ideep (h_it y) /\ imodel (h_it x) = imodel (h_it y)) /\
+               ideep (h_it x) = ideep (h_it y) /\ imodel (h_it x) = imodel (h_it y) /\ h_nm x = h_nm y) /\
   (forall x y, In x l -> In y l -> ity x = ity y -> iprops x = iprops y).
 
 Lemma items_consistent_addr : forall lk D a, items_consistent lk D -> addr_consistent lk (at_addr a D).
@@ -500,11 +539,26 @@ Proof.
   - exfalso. apply (SH x). simpl; auto.
   - eexists. split; [reflexivity|].
     assert (Ix' : In x' (x :: t)) by (apply SH; simpl; auto).
-    destruct (K3 x x' (or_introl eq_refl) Ix') as [D1 D2].
-    unfold config_equiv; cbn [caddr cdeep cmodel csvcs cprops]. split; [reflexivity|split; [assumption|split; [|split]]].
+    destruct (K3 x x' (or_introl eq_refl) Ix') as [D1 [D2 D3]].
+    assert (SB : same_set (map h_b (x :: t)) (map h_b (x' :: t'))) by now apply map_same_set.
+    unfold config_equiv, main_identifier, main_service; cbn [caddr cdeep cmodel csvcs cprops cname].
+    change (fold_left add_service (map h_b t) (add_service [] (h_b x)))
+      with (fold_left add_service (map h_b (x :: t)) []).
+    change (fold_left add_service (map h_b t') (add_service [] (h_b x')))
+      with (fold_left add_service (map h_b (x' :: t')) []).
+    split; [reflexivity|split; [assumption|split; [|split; [|split; [|split; [assumption|split]]]]]].
     + rewrite (hints_invariant lk l l' S Hk). now rewrite D2.
     + apply (services_equiv (map h_b (x :: t)) (map h_b (x' :: t'))); [now apply map_same_set|assumption].
     + intro ty. now apply props_of_invariant.
+    + f_equal. apply map_ext. intro p. rewrite !svc_of_services.
+      assert (R : forall b b', bsvc_equiv b b' -> bident b = bident b') by now intros b b' (Eb & _).
+      pose proof (merged_attr_invariant bident _ _ p R SB C) as H.
+      destruct (merged (of_proto p (map h_b (x :: t)))), (merged (of_proto p (map h_b (x' :: t')))); congruence.
+    + f_equal. apply map_ext. intro p. rewrite !svc_of_services.
+      assert (R : forall b b', bsvc_equiv b b' -> (bproto b, bport b) = (bproto b', bport b')).
+      { intros b b' (_ & E1 & E2 & _). now rewrite E1, E2. }
+      pose proof (merged_attr_invariant (fun b => (bproto b, bport b)) _ _ p R SB C) as H.
+      destruct (merged (of_proto p (map h_b (x :: t)))), (merged (of_proto p (map h_b (x' :: t')))); simpl; congruence.
 Qed.
 
 (* ------------------------------------------------------------ the filter of pyatv.scan *)
@@ -571,9 +625,10 @@ Proof.
   intros lk ids D D' S K. split.
   - now apply half.
   - intros c' I.
-    destruct (half lk ids D' D (same_set_sym _ _ S) (items_consistent_same_set lk D D' S K) c' I) as (c & I' & (Q1 & Q2 & Q3 & (Q4 & Q5) & Q6)).
+    destruct (half lk ids D' D (same_set_sym _ _ S) (items_consistent_same_set lk D D' S K) c' I) as (c & I' & (Q1 & Q2 & Q3 & (Q4 & Q5) & Q6 & Q7 & Q8 & Q9)).
     exists c. split; [assumption|]. unfold config_equiv, svcs_equiv.
-    split; [now symmetry|split; [now symmetry|split; [now symmetry|split; [split|intro ty; symmetry; apply Q6]]]].
+    split; [now symmetry|split; [now symmetry|split; [now symmetry|split; [split|
+      split; [intro ty; symmetry; apply Q6|split; [now symmetry|split; now symmetry]]]]]].
     + intros b Ib. destruct (Q5 b Ib) as (b' & Ib' & (E1 & E2 & E3 & E4)). exists b'. split; [assumption|].
       repeat split; try (symmetry; assumption). intro k. symmetry. apply E4.
     + intros b Ib. destruct (Q4 b Ib) as (b' & Ib' & (E1 & E2 & E3 & E4)). exists b'. split; [assumption|].
